@@ -1044,10 +1044,12 @@ func (x *Exec) locsOfComp(t types.Type, hn func(string) string, obj *Term) []Loc
 		}
 		return []Loc{mk("", x.scalarSort(t))}
 	case *types.Pointer:
+		r := mk("", SInt)
+		r.Ref = true
 		if isStructT(u.Elem()) {
-			return []Loc{mk("", SInt)}
+			return []Loc{r}
 		}
-		return []Loc{mk("", SInt), mk("poff", SInt)}
+		return []Loc{r, mk("poff", SInt)}
 	case *types.Slice:
 		return []Loc{mk("obj", SInt), mk("off", SInt), mk("len", SInt), mk("cap", SInt)}
 	case *types.Interface:
